@@ -6,6 +6,7 @@ import (
 
 	"github.com/krotik/ecal/interpreter"
 	"github.com/krotik/ecal/parser"
+	"github.com/krotik/ecal/scope"
 	"github.com/krotik/ecal/util"
 )
 
@@ -198,5 +199,90 @@ func init() {
 			out := evalECAL("res := "+in, evalOpts{setup: c03Setup, budget: 500})
 			v, _, _ := out.vs.GetValue("res")
 			fmt.Printf("%q -> value %s error %v panic %s\n", in, render(v), out.err, out.panicKey)
+		}})
+}
+
+// ---------------------------------------------------------------------------
+// re-evaluation: an expression is a function of its operands - the same parsed
+// expression evaluated again (a loop body, a function body, a sink, a host that
+// keeps the tree) gives what a freshly parsed one gives for the same operand
+// values, whatever it was evaluated with before (also after an evaluation that
+// failed). Differential oracle, no reference semantics involved.
+
+func init() {
+	register(&Part{Prop: "C03", Name: "re-evaluation", Quick: 1, Thor: 1,
+		Desc: "x op y (19 binary operators) and op x (3 prefix operators) parsed ONCE and evaluated for every sequence of 3 operand pairs over {7, 2, 0, 2.5, \"a\", true, null, [1], \"(\"} x {2, 0, 4, \"a\", \"(\", [1, 2]} (incl. zero divisors, wrong kinds, malformed patterns): each evaluation must give the result or error type of a freshly parsed expression with the same operand values",
+		Rule: "operators x sequences of operand pairs; every case non-trivial",
+		Run: func(c *Ctx) {
+			type val struct {
+				name string
+				v    interface{}
+			}
+			xs := []val{{"7", float64(7)}, {"2", float64(2)}, {"0", float64(0)}, {"2.5", 2.5}, {`"a"`, "a"}, {"true", true}, {"null", nil}, {"[1]", []interface{}{float64(1)}}, {`"("`, "("}}
+			ys := []val{{"2", float64(2)}, {"0", float64(0)}, {"4", float64(4)}, {`"a"`, "a"}, {`"("`, "("}, {"[1,2]", []interface{}{float64(1), float64(2)}}}
+			evalWith := func(ast *parser.ASTNode, erp *interpreter.ECALRuntimeProvider, x, y interface{}) string {
+				vs := scope.NewScope(scope.GlobalScope)
+				vs.SetValue("x", x)
+				vs.SetValue("y", y)
+				var res interface{}
+				var err error
+				if pk, _ := Guard(func() { res, err = ast.Runtime.Eval(vs, make(map[string]interface{}), erp.NewThreadID()) }); pk != "" {
+					return "panic:" + pk
+				}
+				if err != nil {
+					return "error:" + errType(err)
+				}
+				return "value:" + render(res)
+			}
+			mk := func(src string) (*parser.ASTNode, *interpreter.ECALRuntimeProvider) {
+				erp := interpreter.NewECALRuntimeProvider("v", nil, nil)
+				erp.Cron.Stop()
+				ast, err := parser.ParseWithRuntime("v", src, erp)
+				if err != nil || ast.Runtime.Validate() != nil {
+					return nil, nil
+				}
+				return ast, erp
+			}
+			var srcs []string
+			for _, op := range c03Bin {
+				srcs = append(srcs, "x "+op+" y")
+			}
+			srcs = append(srcs, "-x", "+x", "not x", "x % y + x // y", "(x like y) or (x in y)")
+			for _, src := range srcs {
+				for i1 := range xs {
+					for j1 := range ys {
+						for i2 := range xs {
+							if !c.Mine() {
+								continue
+							}
+							// three evaluations of one tree: (x1,y1), (x2,y1), (x1,y2') ...
+							seq := [][2]val{{xs[i1], ys[j1]}, {xs[i2], ys[(j1+1)%len(ys)]}, {xs[i1], ys[(j1+2)%len(ys)]}, {xs[i2], ys[j1]}}
+							input := fmt.Sprintf("%s evaluated for %v", src, seq)
+							c.Begin(input)
+							shared, serp := mk(src)
+							if shared == nil {
+								c.Skip()
+								continue
+							}
+							c.Nontrivial()
+							bad := false
+							for k, p := range seq {
+								got := evalWith(shared, serp, p[0].v, p[1].v)
+								fresh, ferp := mk(src)
+								want := evalWith(fresh, ferp, p[0].v, p[1].v)
+								if got != want {
+									c.Viol("re-evaluation differs from a fresh evaluation", fmt.Sprintf("%q parsed once: evaluation %d with x=%s y=%s gives %s, a freshly parsed expression gives %s (earlier evaluations of the same tree: %v)", src, k+1, p[0].name, p[1].name, got, want, seq[:k]), input)
+									bad = true
+									break
+								}
+							}
+							if !bad {
+								c.Outcome("same-as-fresh")
+							}
+						}
+					}
+				}
+			}
+			c.Sample(`"x % y" parsed once: (7,2) -> 1, (7,0) -> error, (7,2) -> 1 again`)
 		}})
 }
